@@ -153,3 +153,15 @@ def store_targets(st: ast.stmt) -> list[ast.expr]:
 def is_const(e: ast.AST, value) -> bool:
     return isinstance(e, ast.Constant) and e.value is value or \
         (isinstance(e, ast.Constant) and type(e.value) is type(value) and e.value == value)
+
+
+def argmap(call: ast.Call, names: list[str]) -> dict[str, ast.expr]:
+    """Arguments of *call* by parameter name, whether passed positionally or by keyword
+    (*names*: the callee's positional parameters in order, without self)."""
+    out: dict[str, ast.expr] = {}
+    for n, a in zip(names, call.args):
+        out[n] = a
+    for k in call.keywords:
+        if k.arg is not None:
+            out[k.arg] = k.value
+    return out
